@@ -8,7 +8,7 @@ import EmsModel.Core.Proto
 `roundtrip <same arguments>`                     → `_to_index_array(encode …)`: `<rows>` | `ERR:…`
 `decode dims=<a,b> shape=<n>x<m> <payload> <start> primary=<dim>` → `<rows>` | `ERR:…`
 `topo A=<attrs> S=<sizes> V=<var> … N=<numbering> [Q=<c|t|ct>]` (Q: reproduce a recorded deviation)
-                                                 → `fn=…|en=…|fe=…|ef=…|ff=…|dims=…|poly=…|fc=…`
+                                                 → `fn=…|en=…|fe=…|ef=…|ff=…|hv=…|dims=…|poly=…|fc=…`
 `propcheck w=<n> faces=<rows>`                   → `ok` | `FAIL:<conclusion>`
 
 rows: `;` between rows, `,` between cells, `-` a masked / NaN cell, `e` an empty table,
@@ -192,7 +192,11 @@ def topoLine (ds : DS) (numbering : Option (List Pair)) (q : Quirks) : String :=
     | .error e => s!"fn={showErr e}|en={showErr e}|fe={showErr e}|ef={showErr e}|ff={showErr e}"
     | .ok t =>
       s!"fn={showExcept showTable t.faceNode}|en={showExcept showTable t.edgeNodeArray}|fe={showExcept showTable t.faceEdgeArray}|ef={showExcept showTable t.edgeFaceArray}|ff={showExcept showTable t.faceFaceArray}"
-  s!"{tabs}|dims={dims}|poly={poly}|fc={fc}"
+  let hv := String.join ((ds.hasValid numbering q).map fun
+    | .ok true => "1"
+    | .ok false => "0"
+    | .error _ => "E")
+  s!"{tabs}|hv={hv}|dims={dims}|poly={poly}|fc={fc}"
 
 /-! decidable forms of the conclusions of the property theorems, evaluated on the model -/
 
